@@ -108,6 +108,14 @@ def run_wb(case):
     fails, oc, ex = [], set(), 0
     try:
         model = X.model_from_dict(spec)
+        # a calculation with overrides of cells that are NOT inputs of the function comes first: compile() starts from the stored
+        # workbook, not from whatever was calculated last
+        others = {s[1]: to_lib(POOL[0] if s[2] != 'range' else RPOOL[0][:len(s[3])]) for s in inp if s[1] not in in_ids and not (set(s[3]) & {k for t in sel for k in t[3]})}
+        if others:
+            try:
+                model.calculate(others)
+            except Exception:
+                pass
         # compile twice from the same model object and judge the second function: whatever compile() consumes or
         # leaves behind on the model must not show (the first function is called once in between)
         first = model.compile(in_ids, out_ids)
@@ -430,6 +438,9 @@ def run_raw(case):
     try:
         model = formulas.ExcelModel().from_dict(dict(d))
         fresh = formulas.ExcelModel().from_dict(dict(d))
+        rest = {i: to_lib(p[1]) for i, p in raw_books()[name][1] if i not in [x for x, _ in ins]}
+        if rest:
+            model.calculate(rest)            # the last calculation overrode cells that are not inputs of the function
         func = model.compile([i for i, _ in ins], [P + o for o in outs])
     except Exception as e:
         return result(1, ['compile-escape'], [Fail('compile-escape', got='%s:%s' % (exc_name(e), str(e)[:80]), exp='a function', **desc)])
